@@ -436,6 +436,34 @@ func vSleep(d time.Duration) {
 	vYield("sleep")
 }
 
+// vRetryGateCh (when set) holds a Flush that found the io queue full before each of its timed retries until it is closed
+var vRetryGateCh chan struct{}
+var vRetryGateMu sync.Mutex
+
+func vRetryGate() {
+	vRetryGateMu.Lock()
+	g := vRetryGateCh
+	vRetryGateMu.Unlock()
+	if g != nil {
+		<-g
+	}
+}
+
+func vSetRetryGate(g chan struct{}) {
+	vRetryGateMu.Lock()
+	vRetryGateCh = g
+	vRetryGateMu.Unlock()
+}
+
+// vRegisteredHook runs (when set) right after newSession has registered the connection with the event loop
+var vRegisteredHook func(s *Session)
+
+func vRegistered(s *Session) {
+	if h := vRegisteredHook; h != nil {
+		h(s)
+	}
+}
+
 // vNewClientSessionHook replaces newClientSession when set (the harness scripts connection success / failure).
 var vNewClientSessionHook func(sessionID int, epochID, randID uint64, config *SessionManagerConfig) (*Session, error)
 
